@@ -565,6 +565,28 @@ R2_MID = ["a", "a\tb", "word " * 17 + "end", "*e*"]
 R2_END = ["", " ", "  ", "   ", "\t", " \\"]
 R3_BODIES = ["a", "a   ", "b  ", "c\td", "===", "---", "# h", "- x", ""]
 K7_FRAGS = ["`", "``", " ", "a"]
+# repetition: the same or alternating blocks three or four times in a row, separated by blank lines
+T4_BLOCKS = ["> q", "- a", "1. a", "# h", "text", "```\nc\n```", "    code", "---", "<div>\nx\n</div>", "[l]: /u", "* b", "> - n"]
+
+
+class T4Universe(Universe):
+    name = "T4"
+
+    def __init__(self):
+        self.k = len(T4_BLOCKS)
+        self.size = self.k**3 + self.k**4
+
+    def doc(self, rank):
+        n = 3
+        if rank >= self.k**3:
+            rank -= self.k**3
+            n = 4
+        out = []
+        for _ in range(n):
+            out.append(T4_BLOCKS[rank % self.k])
+            rank //= self.k
+        return "\n\n".join(reversed(out)) + "\n"
+
 
 
 _pairs = [a + b for a in "quo" for b in "quo"]
@@ -590,6 +612,7 @@ def _build():
         "M5": M5Universe,
         "P2": P2Universe,
         "R3": lambda: LinesUniverse("R3", ["", "> "], R3_BODIES, 3, newline_variants=True, min_lines=3),
+        "T4": T4Universe,
         "K7": lambda: InlineUniverse("K7", K7_FRAGS, 7, [I4_HOSTS[0]]),
         "R2": lambda: LinesUniverse("R2", R2_PRE, [m + e for m in R2_MID for e in R2_END], 2),
         "L1": L1Universe,
@@ -602,7 +625,7 @@ def get(name):
     return _REGISTRY[name]
 
 
-ALL = ["B2", "B3", "B4", "I4", "I6", "N1", "W1", "S2", "S3", "U1", "X2", "H4", "M5", "L1", "P2", "R2", "R3", "K7"]
+ALL = ["B2", "B3", "B4", "I4", "I6", "N1", "W1", "S2", "S3", "U1", "X2", "H4", "M5", "L1", "P2", "R2", "R3", "K7", "T4"]
 
 if __name__ == "__main__":
     tot = 0
